@@ -15,7 +15,8 @@ func init() {
 		Level: "exploration",
 		Rule: "every element type x channel counts 1..8 x destination (length,capacity) x source length classes {0, 1 frame, one frame short of the spare capacity, exact fit, one frame too many, far too many} x destination kind {standalone, window with spare capacity inside a larger stamped buffer watched by sibling views} x source kind {separate buffer, prefix / suffix / middle slice of the destination's own samples, an earlier window of the same storage, the destination itself}, plus seeded chains of 1..20 appends; " +
 			"after every Append the reference model (old ++ source, length, capacity multiple of C and >= length, in place iff capacity sufficed, base address, fresh disjoint storage on growth, source unchanged) is compared over every live view and every storage through the hook; " +
-			"distinct = distinct (type, C, destination shape, source kind, source length, step) tuples; non-trivial = source length > 0",
+			"distinct = distinct (type, C, destination shape, source kind, source length, step) tuples; non-trivial = source length > 0; " +
+			"also: suffix and middle windows of the destination's own samples as sources",
 		Assume: []string{"domain as stated by the property: equal channel counts, frame-aligned operands, sources not overlapping the destination's spare capacity unless the source is the destination",
 			"the capacity chosen by a growing append and the initial contents of new spare capacity are adopted by the model after checking the stated constraints"},
 		Plan: func(tier string) []Batch { return split("append", 8, 900) },
